@@ -92,6 +92,18 @@ CHECKS.update({
              note=TB + '; the differential part trusts the standard library of the installed Go release'),
 })
 
+CHECKS.update({
+ 'C18': dict(engine='patch', ref='6/C18', technique='the Patch6902 reference machine (TLC-enumerated) replayed into the staged legacy root package, restricted '
+             'to the domain C18 states',
+             text='Same bounded exhaustive exploration as C01 (depth 1 on all seeds, depth 2 on small seeds, both SupportNegativeIndices settings), '
+                  'executed on the go.mod-less root package staged as a module from the working tree; behaviours outside C18\'s stated domain '
+                  'are recognised syntactically / by specification label and not compared.'),
+ 'C19': dict(engine='merge', ref='6/C19', technique='the Merge7396 laws and universes (TLC-enumerated) replayed into the staged legacy root package, restricted to '
+             'the domain C19 states',
+             text='Merge application, created patches (round trip + minimality), composition law and Equal verdicts of the bounded universes are '
+                  'executed on the staged legacy package inside the domain C19 states.'),
+})
+
 NA = {}
 
 
